@@ -343,9 +343,96 @@ fn two_nonzero(run: &Run, tapes: &[(String, Tape)], q: bool) {
     });
 }
 
+/// (e) Ill-shaped verifier shares handed to the combiner AS OBJECTS (the public enum `Poplar1FieldVec` lets an
+/// application build shares of any length; the byte decoders never would): for a cheating report, both round-one
+/// or both round-two verifier shares are replaced by vectors of 0, 1, 2, 3 or 4 zeros (or the genuine shares
+/// truncated / extended by a zero) before `verifier_shares_to_message`; whenever both aggregators then finish, the
+/// output must still be zero / one-hot 1.
+fn typed_shapes(run: &Run, vdaf: &Pop, bits: usize, input: &[bool], st: &Strategy, rep: &Crafted, ctx: &[u8], nonce: &[u8; 16], vk: &[u8; 32]) {
+    use prio::vdaf::poplar1::Poplar1FieldVec;
+    use prio::vdaf::{Aggregator, VerifyTransition};
+    let level = (0..bits).find(|l| st.beta[*l] != 1).unwrap_or(0);
+    let leaf = level == bits - 1;
+    let ap = Poplar1AggregationParam::try_from_prefixes(vec![IdpfInput::from_bools(&input[..=level])]).unwrap();
+    let zeros = |n: usize| if leaf { Poplar1FieldVec::Leaf(vec![Field255::zero(); n]) } else { Poplar1FieldVec::Inner(vec![Field64::zero(); n]) };
+    let reshape = |v: &Poplar1FieldVec, how: &str| -> Poplar1FieldVec {
+        match v {
+            Poplar1FieldVec::Inner(x) => {
+                let mut x = x.clone();
+                if how == "drop_last" { x.pop(); } else { x.push(Field64::zero()); }
+                Poplar1FieldVec::Inner(x)
+            }
+            Poplar1FieldVec::Leaf(x) => {
+                let mut x = x.clone();
+                if how == "drop_last" { x.pop(); } else { x.push(Field255::zero()); }
+                Poplar1FieldVec::Leaf(x)
+            }
+        }
+    };
+    for round in 0..2usize {
+        for shape in ["zeros(0)", "zeros(1)", "zeros(2)", "zeros(3)", "zeros(4)", "drop_last", "push_zero"] {
+            run.count("evaluations", 1);
+            run.count("typed_shape_alterations", 1);
+            let r = pvh::engine::catch(|| -> Option<Vec<Vec<u8>>> {
+                let mut states = vec![];
+                let mut shares = vec![];
+                for a in 0..2 {
+                    let (s, v) = vdaf.verify_init(vk, ctx, a, &ap, nonce, &rep.ps, &rep.shares[a]).ok()?;
+                    states.push(s);
+                    shares.push(v);
+                }
+                let alter = |v: &Vec<Poplar1FieldVec>| -> Vec<Poplar1FieldVec> {
+                    v.iter().map(|x| if let Some(n) = shape.strip_prefix("zeros(") { zeros(n.trim_end_matches(')').parse().unwrap()) } else { reshape(x, shape) }).collect()
+                };
+                let in0 = if round == 0 { alter(&shares) } else { shares.clone() };
+                let m0 = vdaf.verifier_shares_to_message(ctx, &ap, in0).ok()?;
+                let mut outs = vec![];
+                let mut st2 = vec![];
+                let mut sh2 = vec![];
+                for s in states {
+                    match vdaf.verify_next(ctx, s, m0.clone()).ok()? {
+                        VerifyTransition::Continue(s, v) => {
+                            st2.push(s);
+                            sh2.push(v);
+                        }
+                        VerifyTransition::Finish(o) => outs.push(o.get_encoded().ok()?),
+                    }
+                }
+                if outs.len() == 2 {
+                    return Some(outs);
+                }
+                if st2.len() != 2 {
+                    return None;
+                }
+                let in1 = if round == 1 { alter(&sh2) } else { sh2.clone() };
+                let m1 = vdaf.verifier_shares_to_message(ctx, &ap, in1).ok()?;
+                for s in st2 {
+                    match vdaf.verify_next(ctx, s, m1.clone()).ok()? {
+                        VerifyTransition::Finish(o) => outs.push(o.get_encoded().ok()?),
+                        VerifyTransition::Continue(..) => return None,
+                    }
+                }
+                (outs.len() == 2).then_some(outs)
+            });
+            match r {
+                Ok(Some(outs)) => {
+                    let sum = out_sum(leaf, &outs);
+                    // both round-two shares replaced by a single zero is the recorded protocol-level finding (zero_fill)
+                    if !valid_output(&sum) {
+                        let key = if round == 1 && shape == "zeros(1)" { format!("c/invalid_output/verifier_share/round=1/agg=both/zero_fill/bits={bits}") } else { format!("e/typed_shape/round={round}/{shape}/bits={bits}") };
+                        run.fail(&key, &format!("Poplar1(bits={bits}): cheating strategy '{}' on input {:?} with both round-{} verifier shares replaced (as objects) by {shape}: both aggregators finished at level {level} with output sum {:?}", st.name, input, round + 1, sum), json!({"layer": "e", "bits": bits, "input": input, "strategy": st.name, "level": level, "round": round, "shape": shape}));
+                    }
+                }
+                Ok(None) => {}
+                Err(m) => run.fail(&format!("e/typed_shape/panic/round={round}/{shape}"), &format!("Poplar1(bits={bits}): verifier shares of shape {shape} in round {} made the library panic: {m}", round + 1), json!({"layer": "e", "bits": bits, "round": round, "shape": shape})),
+            }
+        }
+    }
+}
+
 fn main() {
     let run = Run::from_args("C04", Level::FaultEnumeration);
-    run.rule("(a) malicious client from public parts: programmed data beta in {0,1,2,-1,3} at one level (others honest), authenticator in {k*beta, k, 0, k+1}, correlated randomness honest for the cheating value or perturbed (A or B at one level), x inputs x every aggregation parameter (bits<=3; on-path/sibling sets beyond) x key tapes; (d) two non-zero candidates adding up to one (control-bit correction flipped at level 0/1, data correction word of level 7 solved from black-box evaluations, correlated randomness for the summed authenticators), placed 1..128 positions apart in the candidate list; (b) honest reports: every byte of public share, both input shares, both rounds of verifier shares and verifier messages x alteration alphabet; oracle: both finish => outputs sum to zero-vector or one-hot 1; cheating strategies rejected whenever an on-path candidate is queried. distinct = (strategy, bits, input, parameter, tape) and distinct alterations; non-trivial = reached verify_init at both aggregators");
+    run.rule("(a) malicious client from public parts: programmed data beta in {0,1,2,-1,3} at one level (others honest), authenticator in {k*beta, k, 0, k+1}, correlated randomness honest for the cheating value or perturbed (A or B at one level), x inputs x every aggregation parameter (bits<=3; on-path/sibling sets beyond) x key tapes; (d) two non-zero candidates adding up to one (control-bit correction flipped at level 0/1, data correction word of level 7 solved from black-box evaluations, correlated randomness for the summed authenticators), placed 1..128 positions apart in the candidate list; (e) for cheating reports, both verifier shares of a round replaced AS OBJECTS by vectors of 0..4 zeros or the genuine ones shortened/extended (shapes the byte decoders never produce); (b) honest reports: every byte of public share, both input shares, both rounds of verifier shares and verifier messages x alteration alphabet; oracle: both finish => outputs sum to zero-vector or one-hot 1; cheating strategies rejected whenever an on-path candidate is queried. distinct = (strategy, bits, input, parameter, tape) and distinct alterations; non-trivial = reached verify_init at both aggregators");
     run.assume("soundness over the verification key is a fixed alphabet of keys (a cheating report passing by chance has probability <= 2/2^64 per key at inner levels)");
     let q = run.quick();
     let tapes: Vec<(String, Tape)> = tape_alphabet(run.seed, if q { 4 } else { 8 }).into_iter().skip(2).collect();
@@ -479,6 +566,9 @@ fn main() {
                         }
                     }
                 }
+            }
+            if si >= 2 && ti == 0 && st.corr_delta.is_none() && ii < 2 {
+                typed_shapes(&run, &vdaf, bits, input, st, &rep, &ctx, &nonce, &vk);
             }
             run.distinct(fnv(format!("a/{bits}/{si}/{ii}/{tn}").as_bytes()));
         });
